@@ -126,11 +126,11 @@ class Schema:
         if tag == "real":
             if mutable:
                 return SReal(z3.Select(ip.path.store_of(attr, R), o.ref), "float")
-            return SReal(self.F(attr, R)(o.ref), "num" if attr == "value" else "float")
+            return SReal(self.F(attr, R)(o.ref), "pynum" if attr == "value" else "float")
         if tag == "optreal":
             isn = z3.Select(ip.path.store_of(attr + "!none", B), o.ref)
             val = z3.Select(ip.path.store_of(attr, R), o.ref)
-            return SOpt(isn, SReal(val, "num"))
+            return SOpt(isn, SReal(val, "pynum"))
         if tag == "int":
             return SInt(self.F(attr, I)(o.ref))
         if tag == "realseq":
@@ -249,8 +249,7 @@ class Schema:
                 return False
             d = ip.path.branch(self.kinds.is_any(v.ref, cands), f"isinstance({v.ref},{'|'.join(names)})")
             if d and len(cands) == 1:
-                ip.path.kinds[str(v.ref)] = cands[0]
-                self.touch(ip, v)
+                self.learn_kind(ip, v.ref, cands[0])
             return d
         if isinstance(v, SOpt):
             if ip.path.branch(v.isnone, "is None"):
@@ -280,7 +279,9 @@ class Schema:
                     res = True
                 elif k in ("numpy.integer", "numpy.number") and pt == "npint":
                     res = True
-                elif pt == "num" and k in ("int", "float"):
+                elif pt == "pynum" and "int" in classes and "float" in classes:
+                    res = True      # a Python int or float (which one is not tracked)
+                elif pt in ("num", "pynum") and k in ("int", "float"):
                     raise Unsupported("isinstance(int/float) on a number of unknown Python type: split the spec case")
             return res
         if isinstance(v, (str, SName, SStrOpaque)):
@@ -300,6 +301,25 @@ class Schema:
             return False
         raise Unsupported(f"isinstance on {type(v).__name__}")
 
+    def learn_kind(self, ip, ref, cls: str) -> None:
+        """The exact class of `ref` is now known on this path: replay the unfolding requests parked on it."""
+        key = str(ref)
+        if ip.path.kinds.get(key) == cls:
+            return
+        ip.path.kinds[key] = cls
+        pend = ip.path.ghost.get("pending_unfold", {}).pop(key, [])
+        for fn_ in pend:
+            fn_()
+
+    def park(self, ip, ref, thunk) -> None:
+        ip.path.ghost.setdefault("pending_unfold", {}).setdefault(str(ref), []).append(thunk)
+
+    def known_op(self, ip, ref):
+        return ip.path.ghost.get("ops", {}).get(str(ref))
+
+    def set_known_op(self, ip, ref, op: str) -> None:
+        ip.path.ghost.setdefault("ops", {})[str(ref)] = op
+
     # ------------------------------------------------------------------ materialisation of allocated objects
     def materialize(self, ip, o: Obj):
         """Give an allocated object a z3 Ref and state what is known about it (kind, immutable fields)."""
@@ -310,6 +330,8 @@ class Schema:
         if o.cls in self.kinds.const:
             p.assume(self.kinds.is_kind(o.ref, o.cls))
             p.kinds[str(o.ref)] = o.cls
+        if isinstance(o.fields.get("op"), str):
+            self.set_known_op(ip, o.ref, o.fields["op"])
         for f, val in list(o.fields.items()):
             if f not in FIELDS:
                 continue
